@@ -20,11 +20,13 @@ def placer(name):
     from rig.place_and_route.place.rand import place as rd
     from rig.place_and_route.place.sa import place as sa
     from rig.place_and_route.place.sa.python_kernel import PythonKernel
-    return {"sequential": lambda *a, **k: seq(*a), "hilbert": lambda *a, **k: hb(*a),
+    cbk = lambda k: ({"on_temperature_change": k["callback"]} if k.get("callback") else {})
+    return {"sequential": lambda *a, **k: seq(*a, **({"vertex_order": k["vertex_order"]} if k.get("vertex_order") is not None else {})),
+            "hilbert": lambda *a, **k: hb(*a),
             "rcm": lambda *a, **k: rcm(*a), "breadth_first": lambda *a, **k: bf(*a),
             "rand": lambda *a, **k: rd(*a, random=k["random"]),
-            "sa_c": lambda *a, **k: sa(*a, effort=k.get("effort", 0.05), random=k["random"]),
-            "sa_py": lambda *a, **k: sa(*a, effort=k.get("effort", 0.05), random=k["random"], kernel=PythonKernel)}[name]
+            "sa_c": lambda *a, **k: sa(*a, effort=k.get("effort", 0.05), random=k["random"], **cbk(k)),
+            "sa_py": lambda *a, **k: sa(*a, effort=k.get("effort", 0.05), random=k["random"], kernel=PythonKernel, **cbk(k))}[name]
 
 
 def snap(objs):
@@ -52,8 +54,24 @@ def chain(call):
             mutated.append(name)
         return r
     args = dict(vres=vres, nets=nets, machine=machine, cons=cons)
-    pl = stage("place", lambda: placer(call["placer"])(vres, nets, machine, cons, random=rnd,
-                                                          **({"effort": call["effort"]} if "effort" in call else {})), args)
+    extra = {"effort": call["effort"]} if "effort" in call else {}
+    kept = []
+    if call.get("callback") and call["placer"].startswith("sa"):
+        # user code called by the annealer: it keeps what it is handed ("keep") or treats it as its own and empties
+        # it ("edit"); neither may change the outcome, and what it was handed must not change afterwards
+        def cb(iteration_count, placements, cost, acceptance_rate, temperature, distance_limit):
+            kept.append((placements, dict(placements)))
+            if call["callback"] == "edit":
+                placements.clear()
+        extra["callback"] = cb
+    if call.get("vertex_order") and call["placer"] == "sequential":
+        order = list(vres)
+        random.Random(call["seed"]).shuffle(order)
+        args["vertex_order"] = order           # the caller's own list: snapshotted like every other argument
+        extra["vertex_order"] = order
+    pl = stage("place", lambda: placer(call["placer"])(vres, nets, machine, cons, random=rnd, **extra), args)
+    if call.get("callback") == "keep" and any(ref != copy for ref, copy in kept):
+        mutated.append("place:snapshot-handed-to-callback-changed-later")
     if pl is None:
         return out, mutated
     out["place"] = canon(pl)
@@ -63,6 +81,11 @@ def chain(call):
         return out, mutated
     out["allocate"] = canon(al)
     args["allocations"] = al
+    if call.get("partial_alloc"):
+        # a caller-built allocations mapping that leaves some vertices out (route() treats them as having no cores)
+        drop = [v for i, v in enumerate(al) if (i + call["seed"]) % 3 == 0]
+        al = type(al)((v, a) for v, a in al.items() if v not in drop)
+        args["allocations"] = al
     rt = stage("route", lambda: route(vres, nets, machine, cons, pl, al, radius=call.get("radius", 20)), args)
     if rt is None:
         return out, mutated
